@@ -1019,7 +1019,7 @@ def run(ctx):
     t0 = time.time()
     delta_parked(ctx)
     threaded(ctx, 8 if ctx.thorough else 3, 12, 120 if ctx.thorough else 48)
-    threaded_rows(ctx, 30 if ctx.thorough else 6)
+    threaded_rows(ctx, 60 if ctx.thorough else 20, per_thread=6)
     tm["threads"] = round(time.time() - t0, 1)
     ctx.note("phase_wall_s", tm)
 
